@@ -415,5 +415,22 @@ func (g G) planFlows(prop string) *Plan {
 		o.faultPcts = []int{0, 0, 10, 25} // a failing key read must never let an unsigned Success assertion out
 	}
 	p := g.planMix(prop, o)
+	g.aimAtCertExpiry(p, 7)
 	return p
+}
+
+// aimAtCertExpiry: in pct % of the plans the first response signing key comes with the short-lived certificate fixture and the
+// run's epoch is aimed at the end of that certificate's validity (seconds to minutes before, exactly at, just after): whatever
+// the provider does differently for a certificate that is about to expire happens then.
+func (g G) aimAtCertExpiry(p *Plan, pct int) {
+	if !g.chance("shortRespCert", pct) {
+		return
+	}
+	p.World.IDP.ExpiredRespCert = true
+	delta := []time.Duration{0, time.Second, 30 * time.Second, 2 * time.Minute, 4*time.Minute + 59*time.Second, 5 * time.Minute, 5*time.Minute + time.Second, 10 * time.Minute, -time.Second, -time.Hour}[g.intn("shortRespCert.delta", 10)]
+	at := Keys[KeyShort].Cert.NotAfter.Add(-delta)
+	base := time.Date(2000, 1, 1, 0, 0, 0, 0, time.UTC)
+	if ms := at.Sub(base).Milliseconds(); ms > 0 {
+		p.World.EpochMs = ms
+	}
 }
